@@ -202,6 +202,35 @@ func checkBytes(r *ev.Run, sc *scratch, asString bool, tag int, payload []byte) 
 			if d.Offset() != len(out) || d.More() {
 				return fmt.Sprintf("offset %d of %d", d.Offset(), len(out)), "not-fully-consumed"
 			}
+			// the same field followed by another one, in a buffer with spare capacity: the value must end where
+			// its declared length ends, and the next field must still be readable
+			more := make([]byte, len(out)+2, len(out)+16)
+			copy(more, out)
+			more[len(out)], more[len(out)+1] = 0x08, 0x01
+			for i := len(more); i < cap(more); i++ {
+				more[:cap(more)][i] = 'Z'
+			}
+			d = csproto.NewDecoder(more)
+			d.SetMode(m)
+			if _, _, err = d.DecodeTag(); err != nil {
+				return "DecodeTag (field followed by another): " + err.Error(), "tag-decode-error"
+			}
+			if asString {
+				var gs string
+				gs, err = d.DecodeString()
+				got = []byte(gs)
+			} else {
+				got, err = d.DecodeBytes()
+			}
+			if err != nil || !bytes.Equal(got, payload) {
+				return fmt.Sprintf("value followed by another field: err=%v, %d bytes returned, %d expected", err, len(got), len(payload)), "value-mismatch-when-followed"
+			}
+			if nt, nw, err := d.DecodeTag(); err != nil || nt != 1 || nw != csproto.WireTypeVarint {
+				return fmt.Sprintf("following field: tag=%d wt=%d err=%v", nt, nw, err), "following-field-unreadable"
+			}
+			if b, err := d.DecodeBool(); err != nil || !b || d.Offset() != len(more) {
+				return fmt.Sprintf("following field value: %v err=%v offset=%d/%d", b, err, d.Offset(), len(more)), "following-field-unreadable"
+			}
 			return "", ""
 		}()
 		if msg != "" {
